@@ -49,6 +49,32 @@ func runC11(c *engine.Ctx, tier string) {
 		Sel:     engine.Sel{Field: "config/v2.AppliedConfigurationStatus.Values[]"},
 		Require: "#ok(" + sbSet + ")",
 		Why:     "the device is left as it was: values the device refused must not enter the applied configuration, which is sent again in the next mastership term"})
+	// (6b) AddDeleteChildren stamps the values it is given in place; the refusal branch persists the applied
+	// record (UpdateStatus). Handing it the applied record itself writes the refused deletes into it.
+	{
+		o := c.Custom("C11.8", "K-args(cascade source)", "every call of controller/utils.AddDeleteChildren in the proposal controller gets the configuration's committed values (CFG.Values) as its third argument, never Status.Applied.Values",
+			"the helper marks the descendants of a deleted node in the collection it is given; on the applied record those marks would be persisted by the refusal branch and re-sent to the device in the next term")
+		paths, err := c.A.Paths(pkgProposalCtl)
+		if err != nil {
+			o.Undecided(pkgProposalCtl, err.Error())
+		} else {
+			want := c.Al.Expand("@CFG.Values")
+			for _, st := range engine.FindSites(paths, c.Match(engine.Sel{Call: "controller/utils.AddDeleteChildren"})) {
+				e := st.Ev()
+				o.Site(c.P.Pos(e.Pos))
+				o.Eval(1)
+				if len(e.Args) != 3 || stripVer(e.Args[2]) != want {
+					o.Fail(&engine.Violation{Key: "proposal controller|cascade source", Pos: c.P.Pos(e.Pos), Func: engine.FuncChain(st.Refs[0].Path, st.Refs[0].Idx),
+						Msg: "AddDeleteChildren is given " + c.Render(strings.Join(e.Args, ", ")) + ": its third argument must be the committed values of the configuration, a collection that is not persisted by this pass"})
+				}
+			}
+		}
+		o.Done(1)
+	}
+	// (7) "stays pending and is applied once the device can be reached": a proposal parked on one of the
+	// quiet returns of reconcileApply is woken by the configuration event that follows the mastership change,
+	// through the watcher that maps the configuration to the proposal at its applied cursor
+	watcherMapsAs(c, "C11.9", pkgProposalCtl+".ConfigurationWatcher")
 	// (4) transaction controller
 	c.Al = transactionAliases(c.P)
 	finalStatesEndWaits(c)
